@@ -109,6 +109,13 @@ def build(run):
         ("list tensor matrix [[u,0],[0,0]]", lambda: inner(ufl.as_matrix([[u, 0], [0, 0]]), grad(vv)) * dx - f * vv[0] * dx),
         ("list tensor matrix [[0,0],[grad u . w, 0]]", lambda: inner(ufl.as_matrix([[0, 0], [dot(grad(u), w_), 0]]), grad(vv)) * dx + dot(w_, vv) * dx),
         ("list tensor of test components [v0, 0]", lambda: u * dot(as_vector([vv[0], 0]), w_) * dx - f * dot(as_vector([vv[1], 0]), w_) * dx),
+        # labelled sub-expressions (ufl.variable) that provide fewer, exactly, or all of the wanted arguments
+        ("variable coefficient factor", lambda: ufl.variable(1 + g * g) * u * v * dx - ufl.variable(1 + g * g) * f * v * dx),
+        ("variable residual (u - f)", lambda: ufl.variable(u - f) * v * dx),
+        ("variable trial function", lambda: ufl.variable(u) * v * dx + f * v * dx),
+        ("variable test function", lambda: u * ufl.variable(v) * dx - f * ufl.variable(v) * dx),
+        ("variable around the whole integrand", lambda: ufl.variable(u * v) * dx - ufl.variable(f * v) * dx + ufl.variable(f * g) * dx),
+        ("variable inside grad", lambda: inner(grad(ufl.variable(f * u)), grad(v)) * dx - ufl.variable(f) * v * ds),
     ]
 
     for fname, mkF in forms:
